@@ -127,7 +127,7 @@ def install():
     S = sift_mod()
     for name in STAGES:
         cur = getattr(S, name, None)
-        if cur is None:
+        if cur is None or not os.environ.get('EMD_VERIF'):      # guard: only under ./vcheck (DESIGN.md 8)
             if name not in _STATE['fallback']:
                 _STATE['fallback'].append(name)
             continue
@@ -540,7 +540,11 @@ class Signatures(Stream):
                 return 'emd.sift.%s no longer exists' % n_
             if LEGACY and n_ == 'get_mask_freqs':
                 continue
-            if _cfg.wire(model[n_]) != out[n_]:
+            live = _cfg.unwire(out[n_])
+            if n_.startswith('_'):
+                # private helper: only the parameters the model binds positionally must be where the model expects them
+                live = dict(list(live.items())[:len(model[n_])])
+            if _cfg.wire(model[n_]) != _cfg.wire(live):
                 return '%s: live signature %s, model %s' % (n_, _cfg.unwire(out[n_]), model[n_])
         return None
 
